@@ -32,11 +32,12 @@ PlainN  == Plain \o <<" ", "%Z">>
 IsoZ    == <<"%F", "T", "%T", "%z">>
 IsoLit  == <<"%Y", "-", "%m", "-", "%d", "T", "%H", ":", "%M", ":", "%S", "Z">>   \* the literal Z of the reference's strptime_local example
 Iso     == IsoLit
+DateStyle == <<"%a", " ", "%b", " ", "%e", " ", "%H", ":", "%M", ":", "%S", " ", "%Z", " ", "%Y">>      \* as date(1) prints
 Frac3Z  == <<"%Y", "-", "%m", "-", "%d", " ", "%H", ":", "%M", ":", "%3S", " ", "%z">>
 Frac9Z  == <<"%Y", "-", "%m", "-", "%d", " ", "%H", ":", "%M", ":", "%9S", " ", "%z">>
 LocalStrf == <<
   Plain, PlainN, PlainZ, IsoZ, <<"%s">>, <<"%j">>, <<"%A">>, <<"%H">>, <<"%d">>, <<"%Z">>, <<"%z">>,
-  <<"%a", " ", "%b", " ", "%e", " ", "%T", " ", "%Z", " ", "%Y">>,
+  DateStyle,
   <<"%I", ":", "%M", " ", "%p">>,
   <<"%A", ", ", "%B", " ", "%e", ", ", "%Y">>,
   <<"%U", " ", "%W", " ", "%V", " ", "%u", " ", "%w">>,
@@ -70,10 +71,10 @@ LocProbes ==
   \o <<P("strptime_local", 0, PlainZ, Own), P("strptime_local", 0, PlainZ, Alt)>>
   \o Map(FixedOffsets, LAMBDA o : P("strptime_local", 0, PlainZ, o))
   \o <<P("strptime_local", 0, IsoZ, Own), P("strpntime_local", 0, PlainZ, Own), P("strpntime_local", 0, PlainZ, Alt),
-       P("strptime_local", 0, PlainN, OwnName), P("strptime_local", 0, PlainN, UtcName)>>
+       P("strptime_local", 0, PlainN, OwnName), P("strptime_local", 0, DateStyle, OwnName), P("strptime_local", 0, PlainN, UtcName)>>
   \* round trips through the binary's own texts
   \o <<P("strptime_local.rt", 0, PlainZ, Own), P("strptime_local.rt", 0, IsoZ, Own), P("strptime_local.rt", 0, Plain, NoZone),
-       P("strptime_local.rt", 0, PlainN, OwnName), P("strpntime_local.rt", 0, PlainZ, Own),
+       P("strptime_local.rt", 0, PlainN, OwnName), P("strptime_local.rt", 0, DateStyle, OwnName), P("strpntime_local.rt", 0, PlainZ, Own),
        P("localtime2sec.rt", 0, None, NoZone), P("localtime2gmt.rt", 0, None, NoZone), P("gmt2localtime.rt", 0, None, NoZone),
        P("sec2localtime.rt", 0, None, NoZone)>>
   \* the GMT functions in the same process: the zone must not touch them
@@ -193,7 +194,7 @@ RouteOf(k, t) == Routes[((k + t[1] + (t[2] \div 900) + Seed) % 4) + 1]
 SpecialYears == {1970, 1986, 2007, 2011, 2016, 2019, 2021, 2024}
 YearOf(t) == CivilFromDays(t[1]).y
 CaseYear(y) == Thorough \/ y \in SpecialYears \/ (y + Seed) % 9 = 0
-Step == IF Thorough THEN 900 ELSE 1800
+Step == IF Thorough THEN 600 ELSE 900
 WindowOffsets == {k * Step : k \in (-(10800 \div Step))..(10800 \div Step)} \cup {-1, 1} \cup (IF Thorough THEN {-59, 59, -3601, 3599} ELSE {})
 \* far enough from the ends of the segment for every candidate instant to lie inside it
 Safe(sg, t) == Cardinality(OffsetsOf(sg)) = 1 \/ (InSeg(sg, Plus(t, -172800)) /\ InSeg(sg, Plus(t, 172800)))
